@@ -34,6 +34,7 @@ class ExprMixin:
     def ev_spec_val(self, text, st, old=None, extra=None):
         node = self._spec_ast(text)
         self.spec_mode += 1
+        saved_cq, self.code_quant = self.code_quant, 0
         saved = st.old
         if old is not None:
             st.old = old
@@ -45,6 +46,7 @@ class ExprMixin:
             return self.ev1(node, st)
         finally:
             self.spec_mode -= 1
+            self.code_quant = saved_cq
             st.old = saved
             if saved_env is not None:
                 st.env.clear()
@@ -410,6 +412,8 @@ class ExprMixin:
         raise Unsupported(f'comparison {type(op).__name__} on {a.ty},{b.ty}')
 
     def contains(self, container, item, st, exits, e):
+        if isinstance(container.ty, TOpt):
+            container = self.coerce(container, container.ty.inner, st)      # the path must have excluded None
         ty = container.ty
         if ty is STR:
             if item.ty is not STR:
@@ -633,6 +637,8 @@ class ExprMixin:
                 return V(ty.v, z3.If(ty.vopt.is_some(cell), ty.vopt.val(cell), dflt))
             if not self.raise_if(st, ty.vopt.is_none(cell), 'KeyError', exits, line, 'missing key'):
                 return None
+            if isinstance(ty.v, TRef) and not ty.v.nullable and not self.spec_mode:
+                st.assume(ty.vopt.val(cell) != null())      # type invariant of Map[K, Ref[C]]
             return V(ty.v, ty.vopt.val(cell))
         if isinstance(ty, TRef):
             sv = self.seq_view(base, st)
@@ -655,7 +661,9 @@ class ExprMixin:
         if isinstance(ty, TMap):
             k = self.coerce(idx, ty.k)
             val = self.coerce(v, ty.v)
-            return V(ty, z3.Store(base.t, k.t, ty.vopt.some(val.t)))
+            new = V(ty, z3.Store(base.t, k.t, ty.vopt.some(val.t)))
+            self.map_update_facts(ty, base.t, new.t, val.t)
+            return new
         raise Unsupported(f'subscript store on {ty}')
 
     def del_subscript(self, base, idx, st, exits, line):
@@ -664,7 +672,9 @@ class ExprMixin:
             k = self.coerce(idx, ty.k)
             if not self.raise_if(st, ty.vopt.is_none(z3.Select(base.t, k.t)), 'KeyError', exits, line, 'del missing key'):
                 return None
-            return V(ty, z3.Store(base.t, k.t, ty.vopt.none()))
+            new = V(ty, z3.Store(base.t, k.t, ty.vopt.none()))
+            self.map_update_facts(ty, base.t, new.t, None)
+            return new
         if isinstance(ty, TSeq):
             n = z3.Length(base.t)
             pos = z3.If(idx.t < 0, n + idx.t, idx.t)
@@ -672,6 +682,22 @@ class ExprMixin:
                 return None
             return V(ty, z3.Concat(z3.Extract(base.t, 0, pos), z3.Extract(base.t, pos + 1, n - pos - 1)))
         raise Unsupported(f'del on {ty}')
+
+    def map_update_facts(self, ty, old_t, new_t, added):
+        """dict views after d[k] = v / del d[k]: every value of the new dict is the stored value or a value of the old one
+        (CPython dict semantics; emitted only where .values() of that map type is used)"""
+        from .builtins_ import _san
+        nm = 'map_values_' + _san(ty.key)
+        if nm not in self.uf:
+            return
+        f = self.uf[nm]
+        i = z3.Int(fresh_name('mv'))
+        nv, ov = f(new_t), f(old_t)
+        w = z3.Function(fresh_name('mvw'), z3.IntSort(), z3.IntSort())      # witness: where the value sat in the old dict
+        inold = z3.And(w(i) >= 0, w(i) < z3.Length(ov), ov[w(i)] == nv[i])
+        body = inold if added is None else z3.Or(nv[i] == added, inold)
+        self.fact(z3.ForAll([i], z3.Implies(z3.And(i >= 0, i < z3.Length(nv)), body), patterns=[nv[i]]),
+                  'dict.values() after an update holds the stored value and old values only (CPython dict)')
 
     # ------------------------------------------------------------------ attributes
     def e_Attribute(self, e, st, exits):
